@@ -35,11 +35,9 @@ def deviation_key(op, shapes, impl, kern):
     return "%s:%s:%s:%s:%s" % (op.split()[0], shapes, ik, kk, tree)
 
 
-def run_streams(ctx, name, mode):
-    ok, out, failing = build_coq()
-    if not ok:
-        ctx.broken("coq-build", "the Coq development does not build; first failing file: %s" % failing, "\n".join(out.splitlines()[-40:]))
-        return None
+def run_streams(ctx, name, mode, fsname="memfs", driver_cmd="fso"):
+    # only the model files are needed here; another property's broken obligation must not raise an alarm for this one
+    build_coq(target="theories/Extract/Extract.vo")
     ok, out = build_ml()
     if not ok:
         ctx.broken("model-build", "extraction / OCaml build of the model failed", out[-3000:])
@@ -48,13 +46,13 @@ def run_streams(ctx, name, mode):
     if not ok:
         ctx.broken("harness-build", "the Go harness does not build against /repo's working tree", out[-3000:])
         return None
-    env = dict(GOENV, VERIF_FSO_MODE=mode)
+    env = dict(GOENV, VERIF_FSO_MODE=mode, VERIF_FSO_FS=fsname)
     rc, out = sh([binp, "fso", "-seed", str(ctx.seed), "-tier", ctx.tier, "-out", ctx.dir, "-name", name], cwd=ctx.dir, env=env, timeout=3000)
     if rc != 0:
         ctx.broken("harness-run:" + name, "the oracle harness failed (rc=%d)" % rc, out[-3000:])
         return None
     base = os.path.join(ctx.dir, name)
-    rc, out = sh("%s/driver fso < %s.cases > %s.model" % (ML, base, base), timeout=3000)
+    rc, out = sh("%s/driver %s < %s.cases > %s.model" % (ML, driver_cmd, base, base), timeout=3000)
     if rc != 0:
         ctx.broken("model-run:" + name, "the specification driver failed", out[-3000:])
         return None
